@@ -900,7 +900,9 @@ class APIClient:
                 BluetoothGATTNotifyResponse,
                 timeout,
             )
-        except Exception:
+        except (Exception, asyncio.CancelledError):
+            # Also remove the callback if the caller gives up (cancellation),
+            # otherwise the notify callback stays subscribed forever
             remove_callback()
             raise
 
